@@ -282,6 +282,7 @@ type simWriter struct {
 	Err     error
 	yield   bool
 	Stalled bool
+	gate    chan struct{} // if set, the first Write returns only when the channel is closed
 }
 
 func newSimWriter(plan WriterPlan, yield bool) *simWriter {
@@ -313,6 +314,9 @@ func (w *simWriter) Write(p []byte) (int, error) {
 	task := ""
 	if t := simrt.CurrentTask(); t != nil {
 		task = t.ID
+	}
+	if w.gate != nil && idx == 0 {
+		simrt.WaitGate("stub:0:writer-held-up@caller's io.Writer", w.gate)
 	}
 	if w.plan.Stall && idx == w.plan.FailAt {
 		w.Stalled = true
